@@ -6,7 +6,18 @@
 (* canonical capitalisation pattern when the word is a known proper noun          *)
 (* ("none" | "Title" | "iOS"), and should_capitalize_token's answer (a function   *)
 (* of the case-folded word, hence stable under re-casing).                        *)
+(* Two deviations that seeded changes introduced are kept as switches (both FALSE is    *)
+(* the code as it is):                                                                   *)
+(*  AllCapsRule   - when the INPUT has an upper-case letter and no lower-case one, every  *)
+(*                  capitalised word without a dictionary spelling gets the rest of its   *)
+(*                  letters lower-cased.  A mixed-case input can produce an all-capitals   *)
+(*                  output (tRNA -> TRNA), which the next pass then rewrites (-> Trna).    *)
+(*  LatinLower    - a token flagged `latin` (a condensed abbreviation such as "vs.") is    *)
+(*                  set in lower case before the position rules are looked at, also when   *)
+(*                  it is the first word.                                                   *)
 EXTENDS Naturals, Sequences, TLC
+
+CONSTANTS AllCapsRule, LatinLower
 
 Up(c) == IF c.ascii THEN [c EXCEPT !.up = TRUE] ELSE c
 Low(c) == IF c.ascii THEN [c EXCEPT !.up = FALSE] ELSE c
@@ -20,19 +31,28 @@ Canon(pattern, chars) ==
 
 WordLikeIdx(toks) == SelectSeq([i \in 1..Len(toks) |-> i], LAMBDA i : toks[i].wl)
 
+IsLatin(t) == "latin" \in DOMAIN t /\ t.latin
+\* "shouting": at least one upper-case ASCII letter and no lower-case one, over the whole input
+Shouting(toks) ==
+  /\ \E i \in DOMAIN toks : \E j \in DOMAIN toks[i].chars : toks[i].chars[j].ascii /\ toks[i].chars[j].up
+  /\ ~\E i \in DOMAIN toks : \E j \in DOMAIN toks[i].chars : toks[i].chars[j].ascii /\ ~toks[i].chars[j].up
+
 \* make_title_case, token by token
-TCToken(t, first, last) ==
+TCToken(t, first, last, shouting) ==
   IF ~t.wl \/ t.chars = <<>> THEN t
+  ELSE IF LatinLower /\ IsLatin(t) THEN [t EXCEPT !.chars = [i \in DOMAIN t.chars |-> Low(t.chars[i])]]
   ELSE LET c1 == IF t.canon # "none" THEN Canon(t.canon, t.chars) ELSE t.chars
            cap == t.cap \/ first \/ last
-           c2 == IF cap THEN [c1 EXCEPT ![1] = Up(c1[1])]
+           c2 == IF cap THEN (IF AllCapsRule /\ shouting /\ t.canon = "none"
+                              THEN [i \in DOMAIN c1 |-> IF i = 1 THEN Up(c1[i]) ELSE Low(c1[i])]
+                              ELSE [c1 EXCEPT ![1] = Up(c1[1])])
                  ELSE [i \in DOMAIN c1 |-> Low(c1[i])]
        IN [t EXCEPT !.chars = c2]
 
 TC(toks) ==
-  LET wl == WordLikeIdx(toks) IN
+  LET wl == WordLikeIdx(toks) sh == Shouting(toks) IN
   [i \in DOMAIN toks |->
-     IF toks[i].wl THEN TCToken(toks[i], wl # <<>> /\ wl[1] = i, wl # <<>> /\ wl[Len(wl)] = i)
+     IF toks[i].wl THEN TCToken(toks[i], wl # <<>> /\ wl[1] = i, wl # <<>> /\ wl[Len(wl)] = i, sh)
      ELSE toks[i]]
 
 RECURSIVE Flat(_)
